@@ -8,6 +8,7 @@
 mod c02;
 mod c03;
 mod c04;
+mod c16;
 mod util;
 
 use std::process::exit;
@@ -22,6 +23,7 @@ fn main() {
         ("search", "c04") => c04::search(&args[3..]),
         ("search", "c02") => c02::search(&args[3..]),
         ("search", "c03") => c03::search(&args[3..]),
+        ("search", "c16") => c16::search(&args[3..]),
         ("replay", path) => {
             let text = match std::fs::read_to_string(path) {
                 Ok(t) => t,
@@ -35,6 +37,11 @@ fn main() {
                 "c04-requests" => c04::replay(&text),
                 "c02-panic-ops" => c02::replay(&text),
                 "c03-op" => c03::replay(&text),
+                "kani-values" => c16::replay(&text),
+                "c16-circuit" => {
+                    println!("{text}");
+                    3
+                }
                 "none" => {
                     println!("replay file carries no concrete input (no-failing-input-found); verifier output:");
                     println!("{text}");
